@@ -155,6 +155,46 @@ func (ff *FuncFacts) AtRefined(b *ssa.BasicBlock) FactSet {
 	return out
 }
 
+// Unphi looks through a phi whose feasible incoming edges (reachable, not pruned, facts not
+// contradictory) all carry the same value: the merge of one live definition with dead ones, as
+// left behind when a helper's success return is spliced into its caller.
+func (ff *FuncFacts) Unphi(v ssa.Value) ssa.Value {
+	for depth := 0; depth < 4; depth++ {
+		ph, ok := v.(*ssa.Phi)
+		if !ok {
+			return v
+		}
+		var only ssa.Value
+		n := 0
+		for _, pe := range ff.PhiOperands(ph) {
+			if !ff.Reachable(pe.Pred) || ff.Removed(pe.Pred, ph.Block()) || contradictoryFacts(pe.Facts) {
+				continue
+			}
+			if n == 0 || pe.Val != only {
+				if n > 0 && pe.Val != only {
+					return v
+				}
+				only = pe.Val
+			}
+			n++
+		}
+		if n == 0 || only == nil {
+			return v
+		}
+		v = only
+	}
+	return v
+}
+
+func contradictoryFacts(fs FactSet) bool {
+	for _, f := range fs {
+		if fs.Has(f.Neg()) {
+			return true
+		}
+	}
+	return false
+}
+
 // PhiOperandsUnder lists, for a phi known non-nil/nil at a point, the feasible
 // incoming values with their edge facts (used by rules that must inspect every
 // possible origin of an error value).
